@@ -628,9 +628,22 @@ def parse_instr(toks, mod, line):
     if op == 'freeze':
         a = p.tval(); p.skip_meta_tail()
         return Instr('freeze', res, a.ty, [a], None, line)
-    if op in ('atomicrmw', 'cmpxchg', 'fence', 'va_arg', 'indirectbr', 'extractelement', 'insertelement',
+    if op == 'atomicrmw':
+        p.eat('volatile')
+        aop = p.next()[1]
+        ptr = p.tval(); p.expect(','); val = p.tval()
+        while not p.done(): p.next()
+        return Instr('atomicrmw', res, val.ty, [ptr, val], {'aop': aop}, line)
+    if op == 'fence':
+        return Instr('fence', line=line)
+    if op == 'cmpxchg':
+        p.eat('weak'); p.eat('volatile')
+        ptr = p.tval(); p.expect(','); cmpv = p.tval(); p.expect(','); newv = p.tval()
+        while not p.done(): p.next()
+        return Instr('cmpxchg', res, Ty('struct', [cmpv.ty, INT(1)], False), [ptr, cmpv, newv], None, line)
+    if op in ('va_arg', 'indirectbr', 'extractelement', 'insertelement',
               'shufflevector', 'callbr', 'catchswitch', 'catchpad', 'cleanuppad'):
-        raise IRError('unsupported instruction %s: %s' % (op, line))
+        return Instr('unsupported', res, None, [], {'why': op}, line)      # an error only if the function is actually emitted
     raise IRError('unknown instruction %r: %s' % (op, line))
 
 
